@@ -596,6 +596,17 @@ func (vc *VC) defaultCall(st *State, name string, fn *ssa.Function, args []Val, 
 
 var curProp string
 
+// isStable: the key belongs to a variable declared `stable` (assigned during start-up only).
+func (vc *VC) isStable(name string) bool {
+	for _, k := range vc.prog.CS.Stables {
+		if keyHasPrefix(name, k) {
+			vc.used["stable variable "+k+": assigned only during start-up (writers outside start-up code are reported as a violation)"] = true
+			return true
+		}
+	}
+	return false
+}
+
 func containsStr(l []string, x string) bool {
 	for _, y := range l {
 		if y == x {
@@ -681,11 +692,15 @@ func (vc *VC) havocArg(st *State, a Val, t types.Type, why string) {
 
 func (vc *VC) havocAll(st *State, why string) {
 	for _, name := range vc.reg.sorted() {
+		if vc.isStable(name) {
+			continue
+		}
 		ki := vc.reg.m[name]
 		before := st.heapVar(ki)
 		st.heap[name] = Fresh("hv:"+name, ki.Sort)
 		st.touchKey(name)
 		st.restoreLocals(name, before)
+		st.monotone(name, before)
 	}
 	vc.havocLog = append(vc.havocLog, "* ("+why+")")
 	vc.noteHavoc(st, "*")
@@ -804,6 +819,12 @@ func (vc *VC) applyContract(fx *FuncCtx, st *State, fc *FuncContract, sig *types
 		vc.used["verified-elsewhere contract of "+callee] = true
 	}
 	for _, r := range fc.Requires {
+		if r.Assumed {
+			// an environment assumption of the callee (life-cycle, configuration): taken on trust there, not an
+			// obligation of its callers
+			vc.used["assumed precondition of "+callee+": "+r.Src] = true
+			continue
+		}
 		g, err := env.evalBool(r.Expr)
 		lbl := fmt.Sprintf("call:%s#%d:%s", shortName(callee), k, r.Label)
 		if err != nil {
@@ -1017,6 +1038,8 @@ func (vc *VC) send(fx *FuncCtx, fr *Frame, st *State, s *ssa.Send) {
 // records the last value sent.
 func (vc *VC) ghostSend(st *State, ct types.Type, ch *Term, v Val, vt types.Type) {
 	vc.markEscaped(st, v)
+	kt := vc.reg.get("ghost:sentTotal", 0, IntSort, nil)
+	st.heap[kt.Name] = Add(st.heapVar(kt), IntC(1))
 	key := "ghost:sent<" + chanKey(ct) + ">"
 	ki := vc.reg.get(key, 1, IntSort, nil)
 	h := st.heapVar(ki)
